@@ -3,6 +3,9 @@ package main
 import (
 	"fmt"
 
+	sdk "github.com/cosmos/cosmos-sdk/types"
+	perptypes "github.com/elys-network/elys/x/perpetual/types"
+
 	"verifharness/chain"
 	"verifharness/run"
 	_ "verifharness/scen"
@@ -10,16 +13,22 @@ import (
 
 type probe struct{}
 
-func (probe) AfterCommit(w *chain.World, blk *chain.BlockRecord) {
-	if blk.Height == 13 {
-		for i, t := range blk.Txs {
-			fmt.Printf("tx %d %s signer=%s code=%d log=%.100s msgs=%v\n", i, t.MsgType(), t.Signer.Name, t.Result.Code, t.Result.Log, t.Msgs)
+func (probe) PostTx(w *chain.World, ctx sdk.Context, tx *chain.TxRecord, success bool) {
+	if ctx.BlockHeight() != 98 || tx == nil {
+		return
+	}
+	if mo, ok := tx.Msgs[0].(*perptypes.MsgOpen); ok {
+		fmt.Printf("OPEN success=%v %v\n", success, mo)
+		for _, m := range w.App.PerpetualKeeper.GetAllMTPsForAddress(ctx, tx.Signer.Addr) {
+			amm, _ := w.App.PerpetualKeeper.GetAmmPool(ctx, m.AmmPoolId)
+			h, _ := w.App.PerpetualKeeper.GetMTPHealth(ctx, *m, amm, "uusdc")
+			fmt.Printf("  mtp %d %s custody=%s liab=%s coll=%s stored=%s recomputed=%s unpaid=%s\n", m.Id, m.Position, m.Custody, m.Liabilities, m.Collateral, m.MtpHealth, h, m.BorrowInterestUnpaidLiability)
 		}
 	}
 }
 
 func main() {
-	j := run.Job{Prop: "C16", Scenario: "oracle-names", Index: 0, Seed: 1, Tier: "quick"}
+	j := run.Job{Prop: "C10", Scenario: "forced", Index: 9, Seed: 1, Tier: "quick"}
 	run.AttachHook = func(w *chain.World) { w.AddProbe(probe{}) }
 	r := run.RunJob(j)
 	fmt.Println(r.Extra, r.NViolations)
